@@ -69,6 +69,19 @@ def run(tier, replay=None):
             rep.violation("%s at schedule %d, trace line %d: %s" % (clause, nb, line, json.dumps(events[line - 1])[:200]),
                           {"part": "queue", "schedules": [sc] if sc else []})
         nq = len(events)
+        # ---- free-running stress of the real channel in the client-loop pattern
+        trace2 = os.path.join(w, "trace_queue_stress.ndjson")
+        env2 = dict(C.GOENV)
+        env2.update({"VERIF_MODE": "stress", "VERIF_OUT": trace2, "VERIF_N": "3000" if thorough else "400"})
+        rc, out, _ = C.run([qbin], cwd=w, env=env2, timeout=900)
+        if rc != 0:
+            raise C.Inconclusive("queuedrive stress failed: " + out[-2000:])
+        ev2 = C.read_ndjson(trace2)
+        v2 = C.tlc_trace(w, "Trace_Queue.tla", "Trace_Queue.cfg", trace2, "trace_queue.ndjson", timeout=900)
+        rep.cov["queue_stress_rounds"] = v2.nbeh
+        nq += len(ev2)
+        for (line, nb, clause) in v2.bads:
+            rep.violation("%s in free-running stress round %d: %s" % (clause, nb, json.dumps(ev2[line - 1])), {"part": "queue-stress"})
         # ---- lock discipline model
         r = C.tlc(w, "Locks.tla", "MC_Locks.cfg", workers=C.NCPU, timeout=900)
         rep.model("MC_Locks.cfg (every pair and triple of 10 lifecycle operations; deadlock + lockset; exhaustive)", r, exhaustive=True)
@@ -95,10 +108,15 @@ def run(tier, replay=None):
                     rep.violation("%s: forced schedule '%s' never completed; goroutine dump: Close blocked in Mutex.Lock=%s, AddClient blocked=%s"
                                   % (clause, events[line - 1].get("name"), events[line - 1].get("close_blocked"), events[line - 1].get("add_blocked")),
                                   {"part": "witness", "witness": wit})
-        rc, out, trace, races = grp.run_mode(w, gbin, "conc", {"VERIF_N": "2500" if thorough else "250"}, timeout=1500)
+        rc, out, trace, races = grp.run_mode(w, gbin, "conc", {"VERIF_N": "2500" if thorough else "250", "VERIF_STORM": "1"}, timeout=1500)
         if rc != 0:
             raise C.Inconclusive("groupdrive conc failed (exit %d): %s" % (rc, out[-2000:]))
-        events = C.read_ndjson(trace)
+        events, vc = grp.validate(w, trace)
+        for (line, nb, clause) in vc.bads:
+            if clause.startswith("C13_"):
+                e = events[line - 1]
+                rep.violation("%s: '%s' never completed; goroutine dump: %s goroutines of the server code blocked acquiring a mutex"
+                              % (clause, e.get("name"), e.get("mutex_blocked")), {"part": "conc", "seed": C.seed()})
         reps, inscope = grp.race_reports(races)
         rep.cov["race_rounds"] = sum(1 for e in events if e.get("ev") == "New")
         rep.cov["race_reports_total"] = len(reps)
